@@ -1,5 +1,5 @@
-import NipyVerif.Model.C07Dm
-/-- dispatch over the model files of C07 (grid/regressors, CSV text, paradigms, assembly) -/
+import NipyVerif.Model.C07Mk
+/-- dispatch over the model files of C07 (grid/regressors, CSV text, paradigms, assembly, kernels/drift/full-rank) -/
 def runAll (ts : NipyVerif.Toks) : String :=
   match NipyVerif.C07.runCsv ts with
   | some r => r
@@ -7,5 +7,7 @@ def runAll (ts : NipyVerif.Toks) : String :=
     | some r => r
     | none => match NipyVerif.C07.runDm ts with
       | some r => r
-      | none => NipyVerif.C07.run ts
+      | none => match NipyVerif.C07.runMk ts with
+        | some r => r
+        | none => NipyVerif.C07.run ts
 def main : IO Unit := NipyVerif.driverLoop runAll
